@@ -46,7 +46,7 @@ MIN = {'quick': {'distinct': 600,
                  'strata': {'slash annotation under hash seeds': 40,
                             'op read2': 50, 'op cli': 200, 'op grammar': 200,
                             'op trans': 300, 'op write_many': 50}},
-       'thorough': {'distinct': 20000,
+       'thorough': {'distinct': 8000,
                     'hooks': {'fresh process runs': 5000}}}
 
 
@@ -381,7 +381,7 @@ def run_session(ctx, si, rng):
     # fresh-process references
     chosen = sorted(outputs)
     rng.shuffle(chosen)
-    for pi in chosen[:ctx.pick(3, 6)]:
+    for pi in chosen[:ctx.pick(3, 4)]:
         for hs in ([0] if ctx.quick() else [0, 1]) + \
                 [rng.choice([1, 7, 12345, 'random'])]:
             out, err = fresh(ctx, pool[pi], hs)
@@ -523,7 +523,7 @@ def additive_case(ctx, case, tmp):
 
 
 def shard(ctx):
-    for i in ctx.indices(ctx.pick(160, 6000)):
+    for i in ctx.indices(ctx.pick(160, 2500)):
         run_session(ctx, i, ctx.rng('session', i))
     # slash annotation under several hash seeds (set/dict iteration order)
     for i in ctx.indices(ctx.pick(48, 1500)):
